@@ -286,18 +286,37 @@ def r8_walk_model(rep, facts):
                 v = deref(v[2][0])
             return v[2].get('node') if isinstance(v, tuple) and len(v) == 3 and v[0] == 'struct' and isinstance(v[2], dict) else None
 
+        def hook(self, name, recv, args):
+            base = name[:-len(self.suffix)] if self.suffix and name.endswith(self.suffix) else name
+            self.seen.append((base, self.node_tag(args[-1])))
+            d = f'toml_edit::{self.module}::{name}'
+            if not self.ev.facts.has_body(d):
+                raise Unanalysable(f'default walker `{d}` not found')
+            return self.apply_fn(self.ev.facts.body(d), [recv] + args)
+
+        def val(self, e, env):
+            if e.get('k') == 'call':
+                f_ = peel(e.get('f', {}))
+                pth = strip_generics(f_.get('path') or '') if f_.get('k') == 'path' else ''
+                if pth.startswith(('toml_edit::visit::Visit::visit_', 'toml_edit::visit_mut::VisitMut::visit_')) and len(e.get('args', [])) >= 2:
+                    args = [self.val(a, env) for a in e['args']]
+                    if deref(args[0]) == ('walker',):
+                        return self.hook(last_seg(pth), deref(args[0]), args[1:])          # `V::visit_table(v, child)`
+            if e.get('k') == 'path' and e.get('res') in ('AssocFn', 'Fn'):
+                pth = strip_generics(e.get('path') or '')
+                if pth.startswith(('toml_edit::visit::Visit::visit_', 'toml_edit::visit_mut::VisitMut::visit_')):
+                    # a hook handed on by name (`walk_children(v, iter, V::visit_value)`): calling it is calling the hook
+                    nm = last_seg(pth)
+                    return ('pyfn', lambda v_, *a_: self.hook(nm, deref(v_), list(a_)))
+            return super().val(e, env)
+
         def _mcall(self, e, env):
             name = e.get('name') or ''
             if name.startswith('visit_'):
                 recv = deref(self.val(e['recv'], env))
                 if recv == ('walker',):
                     args = [self.val(a, env) for a in e.get('args', [])]
-                    base = name[:-len(self.suffix)] if self.suffix and name.endswith(self.suffix) else name
-                    self.seen.append((base, self.node_tag(args[-1])))
-                    d = f'toml_edit::{self.module}::{name}'
-                    if not self.ev.facts.has_body(d):
-                        raise Unanalysable(f'default walker `{d}` not found')
-                    return self.apply_fn(self.ev.facts.body(d), [recv] + args)
+                    return self.hook(name, recv, args)
             if self._workspace_method(e) is None and name in ('iter', 'iter_mut', 'is_empty', 'len'):
                 # a call through `dyn TableLike`: the impl of the node's own type
                 recv = self.val(e['recv'], env)
@@ -353,6 +372,20 @@ def rules(rep, facts):
     from .rules_c16 import r2c_iteration_tables
     r2c_iteration_tables(rep, facts, rid='C20/R5c')
     r8_walk_model(rep, facts)
+    # R1-R4 read the hook calls of every default walker off its body; R8 runs both walks over a model document and checks that every node reaches the hook of its
+    # kind exactly once, in order.  Where R8 holds for both walkers, a walker whose loop moved into a shared helper (and whose body therefore shows no hook call) is not
+    # a finding.
+    r8 = rep.rules.get('C20/R8', {}).get('obligations', [])
+    if len(r8) >= 2 and all(o['ok'] for o in r8) and not any(v['rule'] == 'C20/R8' for v in rep.violations):
+        moot = [v for v in rep.violations if v['rule'] in ('C20/R1', 'C20/R2', 'C20/R3', 'C20/R4')]
+        if moot:
+            rep.violations[:] = [v for v in rep.violations if v not in moot]
+            for rid in ('C20/R1', 'C20/R2', 'C20/R3', 'C20/R4'):
+                if rid in rep.rules:
+                    rep.rules[rid]['obligations'] = [o for o in rep.rules[rid]['obligations'] if o['ok']]
+                    rep.rules[rid]['floor'] = None
+            rep.notes.append(f'C20/R1-R4 read the hook calls off the bodies of the default walkers and do not recognise {len(moot)} of them in this tree ({moot[0]["detail"][:140]}); both walks '
+                             f'over the model document reach every node once and in order (C20/R8).')
     feats = set(facts.crates.get('toml_edit', {}).get('features', []))
     if 'serde' in feats:
         r6_overrides_recurse(rep, facts)
